@@ -824,10 +824,12 @@ func c09L2Run(c *c09L2Case) (req, want string, rows []c09Row, err error) {
 	buf := make([]parquet.Row, maxb)
 	var used []int
 	var batches []string
+	var streaks []int
 	for i := 0; ; i++ {
 		b := c.batches[i%len(c.batches)]
 		n, e := rr.ReadRows(buf[:b])
 		used = append(used, b)
+		streaks = append(streaks, parquet.VerifMergeStreak(rr))
 		var sb strings.Builder
 		if n == 0 {
 			sb.WriteByte('-')
@@ -856,7 +858,7 @@ func c09L2Run(c *c09L2Case) (req, want string, rows []c09Row, err error) {
 	}
 	req = fmt.Sprintf("merge.run %s %s %s", c09Lists(c.keys, func(k int64) string { return strconv.FormatInt(k, 10) }),
 		core.JoinInts(used), c09Lists(c.refills, strconv.Itoa))
-	want = "ok 1 " + strings.Join(batches, "|")
+	want = "ok 1 " + strings.Join(batches, "|") + " " + core.JoinInts(streaks)
 	return req, want, rows, nil
 }
 
@@ -921,7 +923,7 @@ func c09L2Check(ctx *core.Ctx, c *c09L2Case, p *c09Pending) {
 			if len(c.keys) <= 2 {
 				arity = strconv.Itoa(len(c.keys))
 			}
-			ctx.Fail("L2", "merge-mirror arity="+arity, "emitted (input,seq) batches of MergeRowReaders differ from the Lean mirror", map[string]any{
+			ctx.Fail("L2", "merge-mirror arity="+arity, "emitted (input,seq) batches / streak counters of MergeRowReaders differ from the Lean mirror", map[string]any{
 				"case": text, "request": req, "impl": want, "model": ans})
 		}
 	})
